@@ -65,7 +65,7 @@ m = {
     "level_claimed": {"category": v[0], "text": v[1], "design_ref": "DESIGN.md section " + refs[k]},
     "level_note": v[2], "technique": v[3]} for k, v in sorted(checks.items())],
  "not_applicable": [{"property_id": k, "reason": v} for k, v in sorted(na.items())],
- "notes": "see DESIGN.md (section 9 is the build log). Self-tests: ./check selftest-determinism (per-run event-log hashes identical across worker counts and processes), ./check selftest-mutants (45 hand-written property-breaking patches, each must turn its check red), tools/selftest_seeded.sh (63 independently seeded changes in /verif/seeded, four sub-agent rounds), tools/selftest_benign.sh (31 property-preserving patches in /verif/benign, 20 of them from sub-agents, must stay green), ./check selftest-refnum (reference arithmetic against Python). KNOWN_FINDINGS.txt lists nine fixed defects (no open finding).",
+ "notes": "see DESIGN.md (section 9 is the build log). Self-tests: ./check selftest-determinism (per-run event-log hashes identical across worker counts and processes), ./check selftest-mutants (45 hand-written property-breaking patches, each must turn its check red), tools/selftest_seeded.sh (71 independently seeded changes in /verif/seeded, five sub-agent rounds), tools/selftest_benign.sh (31 property-preserving patches in /verif/benign, 20 of them from sub-agents, must stay green), ./check selftest-refnum (reference arithmetic against Python). KNOWN_FINDINGS.txt lists nine fixed defects (no open finding).",
 }
 json.dump(m, open(os.path.join(H, 'MANIFEST.json'), 'w'), indent=1, ensure_ascii=False)
 print("MANIFEST.json written:", len(m["checks"]), "checks,", len(m["not_applicable"]), "not applicable")
